@@ -39,6 +39,27 @@ Statement (properties.jsonl), split into the parts below:
      continuing from the decoded copy ... gives the same result" —
      `C18_resume_eq` (every round boundary, either party), with
      `C18_round3_output_wf` for the message that is produced, not given.
+ (F) "for all inputs ... every supported curve ... as after a process restart
+     between any two rounds": the quantifier is over EVERY session, and one
+     garbler / evaluator process serves many.  Model/Sha2pcProc.lean: a process
+     holding the messages and states of several sessions (same or different
+     curves), a HISTORY = any interleaving of the sessions' round steps, every
+     input of every step consumed in memory or through bytes.
+       `C18_hist_frame`: a step of one session (and any history without steps
+         of session j) leaves every slot of every other session (of j) as it
+         was; `C18_hist_isolation`: the state of session j after ANY history is
+         the state its own steps produce alone (induction over the schedule).
+       `C18_hist_complete_session`: (any round functions) a session whose own
+         steps are round 1, 2, 3 and then round 4 any positive number of times
+         ends, inside every history, with exactly the values of its isolated
+         run in every slot.
+       `C18_hist_correct_partial`: the same for the sha2pc rounds: in every
+         history, every complete session's result is the embedded circuit's
+         function of ITS inputs (PARTIAL in the same sense as (E)).
+     The real process is tied to this model by the `hist` correspondence: the
+     whole process state (deep hash of every live message / session object)
+     after every step of a history executed on the real code equals
+     `Proc.run` of the model on the same schedule.
  (E) "the four-round protocol makes the evaluator output SHA-256(a xor b)" —
      `C18_sha2pc_correct_given_circuit_partial`: the evaluator outputs the
      embedded circuit's function of (a, b), for every group, KDF, hash,
@@ -49,6 +70,7 @@ Statement (properties.jsonl), split into the parts below:
      on the parsed file against crypto/sha256), not proved.
 -/
 import MpcVerif.Proofs.Sha2pcCorrect
+import MpcVerif.Proofs.Sha2pcProc
 
 namespace Mpc
 open Mpc.Sha2pc
@@ -305,6 +327,60 @@ theorem C18_sha2pc_correct_given_circuit_partial {G : Type} (P : Params G) (a b 
       round4 P es m3 = .ok (bitsToBytes (P.circ.compute (bytesToBits a ++ bytesToBits b))) :=
   correct_given_circuit P a b aS sid scalars key r0 inl hwf hnin hnout hod ha hb hA hI hP
 
+/-! ## (F) histories: several sessions in one process -/
+
+/-- FRAME.  A step of session `e.1` leaves all slots of every other session
+unchanged; a whole history in which session `j` does not step leaves all slots
+of session `j` unchanged: no later round, of whichever session, changes a
+message or session state the process already holds.  Any round functions. -/
+theorem C18_hist_frame {T : Ty} (cfg : Cfg T) :
+    (∀ (st : Proc T) (e : Nat × Act) (j : Nat), j ≠ e.1 → Proc.step cfg st e j = st j) ∧
+    (∀ (st : Proc T) (sched : List (Nat × Act)) (j : Nat), (∀ e ∈ sched, e.1 ≠ j) → Proc.run cfg st sched j = st j) :=
+  ⟨fun st e j h => Proc.step_other cfg st e j h,
+   fun st sched j h => by rw [Proc.run_proj, proj_nil_of_absent j sched h]; rfl⟩
+
+/-- ISOLATION.  After every history (every schedule, every number of sessions)
+the state of session `j` is what its own steps, in their order, produce from
+its own initial state. -/
+theorem C18_hist_isolation {T : Ty} (cfg : Cfg T) (st : Proc T) (sched : List (Nat × Act)) (j : Nat) :
+    Proc.run cfg st sched j = (st j).run (cfg j) (proj j sched) :=
+  Proc.run_proj cfg sched st j
+
+/-- A complete session inside ANY history: if the steps of session `j` in the
+schedule are round 1, round 2, round 3 and then round 4 one or more times —
+whatever the consumption modes, whatever the other sessions do in between,
+whatever the process held before — session `j` ends with exactly the values
+of its isolated run (`Rounds.Sound`) in every slot. -/
+theorem C18_hist_complete_session {T : Ty} (cfg : Cfg T) (st : Proc T) (sched : List (Nat × Act)) (j : Nat)
+    (m2 : T.M2) (es : T.ES) (m3 : T.M3) (d : T.D) (hs : (cfg j).Sound m2 es m3 d)
+    (x y z : Bool) (e4s : List Act) (hall : ∀ a ∈ e4s, a.isE4 = true) (hne : e4s ≠ [])
+    (hproj : proj j sched = .g1 :: .e2 x :: .g3 y z :: e4s) :
+    Proc.run cfg st sched j =
+      { m1 := some (cfg j).r1.1, gs := some (cfg j).r1.2, m2 := some m2, es := some es, m3 := some m3, out := some d } := by
+  rw [Proc.run_proj, hproj]
+  exact Sess.run_complete (cfg j) m2 es m3 d hs (st j) x y z e4s hall hne
+
+/-- FULL STATEMENT (not proved): `... .out = some (SHA-256 (a_j xor b_j))`.
+PROVED: in every history of a process serving any number of sessions (each
+with its own curve group, inputs and randomness), every session `j` that
+satisfies `SessCfg.Good` and whose own steps are rounds 1, 2, 3 and then round
+4 one or more times ends with the round messages and session states of its
+isolated run and with the embedded circuit's function of its own inputs as
+result.  MISSING: as in `C18_sha2pc_correct_given_circuit_partial`. -/
+theorem C18_hist_correct_partial (cfg : Nat → SessCfg) (st : Proc sha2pcTy) (sched : List (Nat × Act)) (j : Nat)
+    (hg : (cfg j).Good) (x y z : Bool) (e4s : List Act) (hall : ∀ a ∈ e4s, a.isE4 = true) (hne : e4s ≠ [])
+    (hproj : proj j sched = .g1 :: .e2 x :: .g3 y z :: e4s) :
+    ∃ m2 es m3,
+      round2 (cfg j).P (round1 (cfg j).P (cfg j).aS (cfg j).sid).1 (cfg j).b (cfg j).scalars = .ok (m2, es) ∧
+      round3 (cfg j).P (round1 (cfg j).P (cfg j).aS (cfg j).sid).2 (cfg j).a m2 (cfg j).key (cfg j).r0 (cfg j).inl = .ok m3 ∧
+      Proc.run (fun i => (cfg i).rounds) st sched j =
+        { m1 := some (round1 (cfg j).P (cfg j).aS (cfg j).sid).1, gs := some (round1 (cfg j).P (cfg j).aS (cfg j).sid).2,
+          m2 := some m2, es := some es, m3 := some m3,
+          out := some (bitsToBytes ((cfg j).P.circ.compute (bytesToBits (cfg j).a ++ bytesToBits (cfg j).b))) } := by
+  obtain ⟨m2, es, m3, hs⟩ := (cfg j).rounds_sound hg
+  exact ⟨m2, es, m3, hs.h2, hs.h3,
+    C18_hist_complete_session (fun i => (cfg i).rounds) st sched j m2 es m3 _ hs x y z e4s hall hne hproj⟩
+
 /-! ## Non-vacuity -/
 
 /-- A toy curve: name "T", one-byte field, every abscissa decompresses to 1 (odd) or 2 (even). -/
@@ -395,6 +471,132 @@ example (a b : Bytes) (ha : a.length = 32) (hb : b.length = 32) (key : Bytes) (r
       round4 toyParams es m3 = .ok (bitsToBytes (toyCircuit.compute (bytesToBits a ++ bytesToBits b))) :=
   C18_sha2pc_correct_given_circuit_partial toyParams a b 3 42 [] key r0 inl (by decide +kernel) rfl rfl
     (by decide +kernel) ha hb (toyCrypto_onCurve _) (toyCrypto_onCurve _) (fun _ _ => toyCrypto_onCurve _)
+
+/-! ### histories -/
+
+/-- A toy curve description whose decompression returns the ordinate 0 of the
+toy group's points `(k, 0)`. -/
+def toyCurveZ (name : Bytes) (bl : Nat) : Curve := { name := name, byteLen := bl, decompress := fun _ _ => some 0 }
+
+/-- A toy session: "curve" `name`/`bl`, inputs `a`, `b`, sender scalar `aS`, session id `sid`. -/
+def toySess (name : Bytes) (bl : Nat) (a b : Bytes) (aS sid : Nat) : SessCfg :=
+  { G := Fin 7,
+    P := { curve := toyCurveZ name bl, crypto := toyCrypto, circ := toyCircuit, hashOf := fun _ => hashOf id },
+    a := a, b := b, aS := aS, sid := sid, scalars := [], key := List.replicate 32 0, r0 := 0#128, inl := fun _ => 0#128 }
+
+theorem toy_fits (name : Bytes) (bl : Nat) (hbl : 0 < bl) (v : Nat) (hv : v < 7) : fits (toyCurveZ name bl) v := by
+  unfold fits toyCurveZ
+  simp only
+  calc v < 256 ^ 1 := by omega
+    _ ≤ 256 ^ bl := Nat.pow_le_pow_right (by decide) hbl
+
+theorem toyPt_x (p : Fin 7) : (toyCrypto.toPt p).x < 7 := Fin.isLt p
+
+/-- `SessCfg.Good` is satisfiable (for every name/width, all inputs, every
+session id, scalars below 7). -/
+theorem toySess_good (name : Bytes) (bl : Nat) (a b : Bytes) (aS sid : Nat) (hn0 : 0 < name.length)
+    (hn : name.length < 128) (hbl : 0 < bl) (hbl' : bl ≤ 1000) (ha : a.length = 32) (hb : b.length = 32)
+    (hsid : sid < 2 ^ 64) (haS : aS < 7) : (toySess name bl a b aS sid).Good where
+  hwf := by show toyCircuit.WF = true; decide +kernel
+  hnin := rfl
+  hnout := rfl
+  hod := by show toyCircuit.outputsDefined = true; decide +kernel
+  ha := ha
+  hb := hb
+  hA := toyCrypto_onCurve _
+  hI := toyCrypto_onCurve _
+  hP := fun _ _ => toyCrypto_onCurve _
+  curve := ⟨hn0, hn, hbl, hbl'⟩
+  key := List.length_replicate ..
+  m1wf := ⟨hsid, rfl, toy_fits name bl hbl _ (Fin.isLt _), toy_fits name bl hbl 0 (by decide)⟩
+  gswf := ⟨hsid, rfl, toy_fits name bl hbl _ haS, toy_fits name bl hbl _ (Fin.isLt _), toy_fits name bl hbl 0 (by decide),
+    toy_fits name bl hbl _ (Fin.isLt _), toy_fits name bl hbl 0 (by decide)⟩
+  r2wf := by
+    intro m2 es h
+    have hbits : (bytesToBits b).length = nBits := by rw [bytesToBits_length, hb]; rfl
+    unfold round2 at h
+    simp only [toySess, round1, toyCurveZ] at h
+    simp only [ne_eq, not_true_eq_false, if_false, hbits] at h
+    have hon := toyCrypto_onCurve (Co.senderSetup toyCrypto.Γ toyCrypto.g aS).A
+    unfold Crypto.onCurve at hon
+    rw [hon] at h
+    simp only [Res.ok.injEq, Prod.mk.injEq] at h
+    obtain ⟨h2, he⟩ := h
+    subst h2
+    subst he
+    refine ⟨⟨hsid, rfl, by simp, ?_, ?_⟩,
+      ⟨hsid, rfl, toy_fits name bl hbl _ (toyPt_x _), toy_fits name bl hbl 0 (by decide), by simp, ?_, hbits⟩⟩
+    · intro p hp
+      simp only [List.mem_map] at hp
+      obtain ⟨i, _, rfl⟩ := hp
+      exact toy_fits name bl hbl _ (toyPt_x _)
+    · intro p hp
+      simp only [List.mem_map] at hp
+      obtain ⟨i, _, rfl⟩ := hp
+      rfl
+    · intro v hv
+      simp only [List.mem_map] at hv
+      obtain ⟨i, _, rfl⟩ := hv
+      exact toy_fits name bl hbl 0 (by decide)
+
+/-- Three toy sessions in one process: two on the "curve" T (one-byte field),
+one on the "curve" UU (two-byte field); different inputs, scalars, session ids. -/
+def toyCfg : Nat → SessCfg
+  | 0 => toySess [0x54] 1 (List.replicate 32 0x0f) (List.replicate 32 0x35) 3 42
+  | 1 => toySess [0x55, 0x55] 2 (List.replicate 32 0xff) (List.replicate 32 0x01) 5 43
+  | _ => toySess [0x54] 1 (List.replicate 32 0) (List.replicate 32 0) 2 44
+
+theorem toyCfg_good : ∀ j, (toyCfg j).Good
+  | 0 => toySess_good _ _ _ _ _ _ (by decide) (by decide) (by decide) (by decide) rfl rfl (by decide) (by decide)
+  | 1 => toySess_good _ _ _ _ _ _ (by decide) (by decide) (by decide) (by decide) rfl rfl (by decide) (by decide)
+  | _ + 2 => toySess_good _ _ _ _ _ _ (by decide) (by decide) (by decide) (by decide) rfl rfl (by decide) (by decide)
+
+/-- A history of the three sessions in the shape of a batching garbler: rounds
+1-2 of every session, then all three round 3, then the evaluators in reverse
+order, session 0 consuming its round-3 message (produced BEFORE the round 3 of
+sessions 1 and 2) in memory and, later again, through bytes. -/
+def toySched : List (Nat × Act) :=
+  [(0, .g1), (1, .g1), (0, .e2 false), (2, .g1), (1, .e2 true), (2, .e2 false),
+   (0, .g3 false true), (1, .g3 true false), (2, .g3 false false),
+   (2, .e4 true true), (1, .e4 false true), (0, .e4 false false), (0, .e4 true true), (1, .e4 false false)]
+
+example : proj 0 toySched = [.g1, .e2 false, .g3 false true, .e4 false false, .e4 true true] := by decide
+example : proj 1 toySched = [.g1, .e2 true, .g3 true false, .e4 false true, .e4 false false] := by decide
+example : proj 2 toySched = [.g1, .e2 false, .g3 false false, .e4 true true] := by decide
+
+/-- The hypotheses of the history theorem are satisfiable, for every session of
+the toy history, from ANY earlier process state; its conclusion for session 0:
+the result is the toy circuit's function (bitwise xor) of session 0's inputs. -/
+example (st : Proc sha2pcTy) :
+    (Proc.run (fun i => (toyCfg i).rounds) st toySched 0).out =
+      some (bitsToBytes (toyCircuit.compute (bytesToBits (List.replicate 32 0x0f) ++ bytesToBits (List.replicate 32 0x35)))) := by
+  obtain ⟨m2, es, m3, _, _, h⟩ := C18_hist_correct_partial toyCfg st toySched 0 (toyCfg_good 0) false false true
+    [.e4 false false, .e4 true true] (by decide) (by decide) (by decide)
+  rw [h]
+  rfl
+example (st : Proc sha2pcTy) : ∃ d, (Proc.run (fun i => (toyCfg i).rounds) st toySched 1).out = some d := by
+  obtain ⟨m2, es, m3, _, _, h⟩ := C18_hist_correct_partial toyCfg st toySched 1 (toyCfg_good 1) true true false
+    [.e4 false true, .e4 false false] (by decide) (by decide) (by decide)
+  exact ⟨_, by rw [h]⟩
+example (st : Proc sha2pcTy) : ∃ d, (Proc.run (fun i => (toyCfg i).rounds) st toySched 2).out = some d := by
+  obtain ⟨m2, es, m3, _, _, h⟩ := C18_hist_correct_partial toyCfg st toySched 2 (toyCfg_good 2) false false false
+    [.e4 true true] (by decide) (by decide) (by decide)
+  exact ⟨_, by rw [h]⟩
+
+/-- `Rounds.Sound` (hypothesis of `C18_hist_complete_session`) is satisfiable:
+the sha2pc rounds of a toy session. -/
+example : ∃ m2 es m3, (toyCfg 1).rounds.Sound (T := sha2pcTy) m2 es m3 (toyCfg 1).result :=
+  (toyCfg 1).rounds_sound (toyCfg_good 1)
+
+/-- Frame / isolation on the toy history: after the first nine events session 2
+has not run round 4; nothing session 0 or 1 do afterwards changes its slots. -/
+example (st : Proc sha2pcTy) :
+    Proc.run (fun i => (toyCfg i).rounds) st [(1, .e4 false true), (0, .e4 false false), (0, .e4 true true)] 2 = st 2 :=
+  (C18_hist_frame _).2 st _ 2 (by decide)
+example (st : Proc sha2pcTy) :
+    Proc.run (fun i => (toyCfg i).rounds) st toySched 2 =
+      (st 2).run (toyCfg 2).rounds [.g1, .e2 false, .g3 false false, .e4 true true] :=
+  C18_hist_isolation _ st toySched 2
 
 /-- Off-curve coordinates exist in the toy group: `(1, 1)` is not a curve point. -/
 example : toyCrypto.ofPt ⟨1, 1⟩ = none ∧ (toyCrypto.ofPt ⟨1, 0⟩).isSome := by decide
